@@ -118,3 +118,11 @@ def run(ctx):
 def replay(ctx, payload):
     print(payload)
     return 0
+
+CLAIM = {'note': 'Trusted: Coq kernel + vm_compute; harness reifiers; typing semantics as modelled. Stub-class and '
+         'store clauses are per-case Coq evaluations of implementation output.',
+ 'ref': '4/C06',
+ 'technique': 'Coq proof by induction on fuel/values + vm_compute differential correspondence',
+ 'text': 'Coq theorems k0_no_typeddict, td_bounded_infer, td_bounded_merge, td_from_str_dicts_only about the '
+         'inference model for every k, every value collection and every merge; store round trip and stub '
+         "classes checked per case by the Coq predicate td_boundedb on the implementation's output."}
